@@ -1,15 +1,18 @@
 import NasdaqModel.Driver.Sexp
 import NasdaqModel.Model.Monitor
+import NasdaqModel.Model.MonitorLate
 /-
 Line protocol for Model/Monitor.lean.
 
   hb.run  <soupClient|soupServer|fix> <clientI> <serverI> (<ev>*)      ev ::= (adv k) | send | sendhb | sendfailed | (recv hb|msg|frag) | close
       -> ok now=<t> closed=<none | t:mon | t:app> writes=((t hb|app live|dead)*)          (chronological)
+  hbl.run <role> <clientI> <serverI> (<lev>*)      lev ::= ev | (hold k) | resume       (Model/MonitorLate.lean: the loop held up for k units)
+      -> as hb.run
   mon.run <interval> <tol> <true|false> (<mev>*)                       mev ::= (adv k) | ping
       -> ok now=<t> running=<bool> trips=(t*)
 -/
 namespace NasdaqModel.Driver.MonitorD
-open NasdaqModel Sexp Monitor
+open NasdaqModel Sexp Monitor MonitorLate
 
 def roleOf : Sexp → Option Role
   | .atom "soupClient" => some .soupClient
@@ -34,6 +37,19 @@ def evsOf : List Sexp → Option (List Ev)
   | .list [.atom "recv", .atom "msg"] :: rest => do some (Ev.recv .msg :: (← evsOf rest))
   | .list [.atom "recv", .atom "frag"] :: rest => do some (Ev.recv .frag :: (← evsOf rest))
   | _ => none
+
+/-- events of the late-tick model: the tokens of `evsOf`, `(hold k)`, `resume` -/
+def levsOf : List Sexp → Option (List LEv)
+  | [] => some []
+  | .list [.atom "hold", k] :: rest => do
+      let k ← asNat k
+      let r ← levsOf rest
+      some (List.replicate k LEv.hold ++ r)
+  | .atom "resume" :: rest => do some (LEv.resume :: (← levsOf rest))
+  | e :: rest => do
+      let b ← evsOf [e]
+      let r ← levsOf rest
+      some (b.map LEv.base ++ r)
 
 def mevsOf : List Sexp → Option (List MEv)
   | [] => some []
@@ -76,6 +92,12 @@ def handle (op : String) (args : List Sexp) : Option String :=
       let si ← asNat si
       let evs ← evsOf evs
       some (sessStr ((login role ⟨ci, si⟩).run evs))
+  | "hbl.run", [role, ci, si, .list evs] => do
+      let role ← roleOf role
+      let ci ← asNat ci
+      let si ← asNat si
+      let evs ← levsOf evs
+      some (sessStr ((loginL role ⟨ci, si⟩).run evs).s)
   | "mon.run", [i, n, .atom stop, .list evs] => do
       let i ← asNat i
       let n ← asNat n
